@@ -21,7 +21,7 @@ MIN_DECISIVE = {'quick': 100, 'thorough': 2000}
 MIN_COUNTERS = {'quick': {'subspace_tests': 60, 'love_pairs': 60, 'z_values': 60}, 'thorough': {'subspace_tests': 1200, 'love_pairs': 1200}}
 CASE_TIMEOUT = 600
 RULE = ('each case = (monitor, core kind in {solid static, solid dynamic, liquid dynamic, liquid static}, family, l 2..8, frequency 1e-6..1e-3 (liquid monitors 5e-5..1e-2), random core '
-        'properties incl. soft lossy rigidities so that both branches of z(x^2) are driven, start radius); non-trivial = all solves succeeded and are '
+        'properties incl. soft lossy and strongly dissipative (loss angle up to 88 deg) rigidities so that both branches of z(x^2) are driven, start radius); non-trivial = all solves succeeded and are '
         'stable under a 100x tighter tolerance (subspace/subspace_liquid/r0sweep/families), both families returned finite liquid vectors (liquid_span) or the helper value was compared (zfunc)')
 ASSUMPTIONS = ['subspace residual tolerance 1e3 rtol + 1e-9 after scaling rows by (1, r/|mu|, 1, r/|mu|, 1/(g r), 1/g)', 'Love-number budget 50 rtol + 10 (delta_a + delta_b)',
                'z reference: x j_{l+1}(x)/j_l(x) with 40-digit Bessel functions']
@@ -35,7 +35,7 @@ def gen_cases(tier, seed):
     cases = []
     for i in range(n):
         base = {'l': int(rng.integers(2, 9)), 'freq': float(10 ** rng.uniform(-6, -3)), 'R': float(10 ** rng.uniform(5.8, 7.3)), 'rho': float(rng.uniform(2500, 9000)),
-                'mag': float(10 ** rng.uniform(7.5, 11.3)), 'ang': float(rng.uniform(0.1, 40)), 'Kfac': float(10 ** rng.uniform(0.3, 2.5)), 'sub': i, 'seed': seed}
+                'mag': float(10 ** rng.uniform(7.5, 11.3)), 'ang': float(rng.uniform(0.1, 40) if i % 4 else rng.uniform(40, 88)), 'Kfac': float(10 ** rng.uniform(0.3, 2.5)), 'sub': i, 'seed': seed}
         for fam in ('tak_static', 'tak_dynamic', 'kam_static', 'kam_dynamic', 'kam_dynamic_incomp'):
             cases.append(dict(base, mon='subspace', fam=fam, r0f=float(10 ** rng.uniform(-3, math.log10(0.5)))))
         cases.append(dict(base, mon='subspace_liquid', fam=['kam', 'tak'][i % 2], incomp=bool(i % 4 == 2), r0f=float(10 ** rng.uniform(-3, -0.1)), freq=float(10 ** rng.uniform(-4, -2.3))))
